@@ -71,7 +71,7 @@ def class_weights(tier):
 
 
 def n_runs(tier):
-    return 7_000 if tier == "quick" else 120_000
+    return 7_000 if tier == "quick" else 400_000
 
 
 def _outcome(fn):
